@@ -29,7 +29,7 @@ enum Op {
 
 fn rotation_sub(depth: usize) -> Sub {
   let mut sub = Sub::new("rotation", "E1");
-  sub.rule = "state = history of add/remove/next on the real LoadBalancer (3 peers); key = (peer list, position of the next pick, picks since each peer's last selection); non-trivial = a removal happened between two selections; oracle: between two selections of the same peer every peer present throughout is selected exactly once (round-robin), next() returns None iff empty, never a removed peer".into();
+  sub.rule = "state = history of add/remove/next on the real LoadBalancer (3 peers); key = (peer list, position of the next pick, picks since each peer's last selection); non-trivial = a removal happened between two selections; oracle: between two selections of the same peer (itself present throughout) every other peer present throughout is selected exactly once (round-robin), next() returns None iff empty, never a removed peer".into();
   let alpha: Vec<Op> = vec![Op::Add(0), Op::Add(1), Op::Add(2), Op::Remove(0), Op::Remove(1), Op::Remove(2), Op::Next];
   sub.bounds = json!({"depth": depth, "peers": 3, "alphabet": format!("{:?}", alpha)});
   let alpha2 = alpha.clone();
@@ -79,7 +79,9 @@ fn rotation_sub(depth: usize) -> Sub {
               } else {
                 // fairness: since `id` was last selected, every peer present throughout that span
                 // must have been selected exactly once
-                if let Some(prev) = picks.iter().rposition(|p| *p == id) {
+                // (a peer that was removed and added again since its previous selection is a new
+                // connection: its earlier turn says nothing about whose turn it is now)
+                if let Some(prev) = picks.iter().rposition(|p| *p == id).filter(|prev| continuous_since[id as usize] <= *prev) {
                   let span = &picks[prev + 1..];
                   for &q in &present {
                     if q == id {
@@ -359,7 +361,7 @@ pub fn run(tier: Tier) -> Report {
   let mut rep = Report::new("C13", tier, "model_checking");
   rep.assume("E2 harnesses drive the real OutgoingMessageOrchestrator/LoadBalancer with real ScaConnectionIface objects over real bounded fibre pipes; the PUSH/DEALER socket wrappers around them are covered by the E3 stack scenarios");
   rep.assume("SNDTIMEO = -1 (block) in the routing harnesses; timed variants are C14's");
-  rep.add(rotation_sub(tier.pick(7, 8)));
+  rep.add(rotation_sub(tier.pick(7, 10)));
   let mut sub = Sub::new("routing", "E2");
   sub.rule = "evaluation = one complete schedule; oracle = each message in exactly one pipe, a full peer skipped while another has room, a sender blocked on all-full completes through whichever peer drains, a sender waiting for a first peer proceeds once one is added (deadlock = lost wake-up)".into();
   let hs = harnesses(tier);
